@@ -57,7 +57,7 @@ def build(ob):
             name = XS_NAMES[xs_i % len(XS_NAMES)]
             xs_i += 1
         else:
-            name = NAMES[sf_i % len(NAMES)] if kind != "SF" else ["F2_total", "FL_light", "F3_charm"][sf_i % 3]
+            name = NAMES[sf_i % len(NAMES)] if kind != "SF" else ["F2_total", "F2", "FL_light", "F3_charm"][sf_i % 4]      # (both spellings of one observable are separate entries)
             sf_i += 1
         if name in obsd or name in out:
             name = name.split("_")[0] + "_" + ["total", "light", "charm", "bottom"][(j + 1) % 4]
@@ -76,6 +76,8 @@ def build(ob):
                     v, e = special((14, n), m + i), special((14, n), m + i + 3)
                 else:
                     v, e = rng.normal(size=(14, n)), rng.normal(size=(14, n)) * 1e-9
+                if m == 0 and i % 2 == 1 and ob["vcls"] != "special":
+                    v, e = np.zeros((14, n)), np.zeros((14, n))        # an order that vanishes identically is still an order
                 r.orders[tuple(key)] = (v, e)
             res.append(r)
         out[name] = res
@@ -220,7 +222,8 @@ def run(ctx):
         ctx.violation(key, f"output with entries {ln['kinds']} ({ln['rep']} metadata, {ln['vcls']} values), sequence {ln['fmts']}: "
                       f"{clause} [{ln['note']}]", dict(kind="C15", obligation={k: ln[k] for k in ("oid", "kinds", "npts", "keys", "vcls", "rep", "fmts")}))
     # real runner outputs
-    jobs = [("nnlo_sv", dict(PTO=2, PTODIS=2), dict(prDIS="NC"), {"F2_total": [dict(x=0.1, Q2=20.0), dict(x=0.3, Q2=5.0)]}),
+    jobs = [("nnlo_sv", dict(PTO=2, PTODIS=2), dict(prDIS="NC"), {"F2_total": [dict(x=0.1, Q2=20.0), dict(x=0.3, Q2=5.0)],
+                                                                    "F2": [dict(x=0.2, Q2=20.0)], "F2_charm": [dict(x=0.2, Q2=3.0), dict(x=0.2, Q2=20.0)]}),
             ("tmc_xs", dict(PTO=1, PTODIS=1, TMC=1), dict(prDIS="NC", ProjectileDIS="positron"),
              {"XSHERANC_total": [dict(x=0.2, Q2=10.0, y=0.5)], "FL_light": [dict(x=0.2, Q2=10.0)], "F3_charm": [],
               "F1_total": [dict(x=0.2, Q2=10.0, y=0.3), dict(x=0.2, Q2=10.0, y=0.6)]})]
